@@ -39,6 +39,12 @@ def uniformEdges (n : Nat) (m : Rat) (ds : List Rat) : List Rat :=
   let s := sortR (ds.filter (· ≤ m))
   (List.range n).map fun (i : Nat) => quantileSorted s (((i : Rat) + 1) / (n : Rat))
 
+/-- rule-based binnings: `np.histogram_bin_edges(d, bins=rule)[1:]` = the `k` upper edges of `k`
+equal-width classes between the smallest and the largest selected distance (`k` is derived by the
+NumPy rule and reported as `n_lags`) -/
+def linspaceEdges (lo hi : Rat) (k : Nat) : List Rat :=
+  (List.range k).map fun (i : Nat) => lo + (hi - lo) * ((i : Rat) + 1) / (k : Rat)
+
 /-- k-means / ward: mid-points of `[0] + sorted centres` -/
 def midpointEdges : Rat → List Rat → List Rat
   | _, [] => []
